@@ -289,6 +289,8 @@ harnesses! {
         #[cfg_attr(kani, kani::stub(std::fs::remove_file, crate::world::fs::stub_remove_file))]
         #[cfg_attr(kani, kani::stub(std::fs::create_dir_all, crate::world::fs::stub_create_dir_all))]
         #[cfg_attr(kani, kani::stub(std::env::var, crate::world::env::stub_var))]
+        #[cfg_attr(kani, kani::stub(core::unicode::unicode_data::alphabetic::lookup, crate::util::stub_unicode_lookup_cut))]
+        #[cfg_attr(kani, kani::stub(core::unicode::unicode_data::n::lookup, crate::util::stub_unicode_lookup_cut))]
         #[cfg_attr(kani, kani::stub(std::backtrace::Backtrace::capture, crate::util::stub_backtrace_capture))]
         #[cfg_attr(kani, kani::stub(<anyhow::Error as std::ops::Drop>::drop, crate::util::stub_anyhow_drop))]
         #[cfg_attr(kani, kani::stub(<anyhow::Error as std::convert::From<std::io::Error>>::from, crate::util::stub_anyhow_from_cut))]
